@@ -457,6 +457,8 @@ def attr_at(value, r, c, default):
     """body attribute value at table position (r, c): scalar | per-column list | matrix (cyclic broadcast)"""
     if value is None:
         return default
+    if isinstance(value, dict):
+        value = docgen.plain(value)      # spelling markers (tuple, array-likes): same binding, plain lists
     if not isinstance(value, list):
         return value
     if value and not isinstance(value[0], list):
